@@ -284,7 +284,7 @@ def run(ctx):
     ctx.assume("whole-output equality additionally relies on PLB-1 (C06) and on the component decomposition; the indenter's plain heuristics themselves are not judged")
     prog = common.view(ctx, "default")
     lib = prog.lib
-    roles = common.role_fields(ctx, lib)
+    roles = common.role_fields(ctx, lib, want=("colour",))
     col2(ctx, lib)
     col3(ctx, lib)
     ind1(ctx, lib)
